@@ -336,6 +336,52 @@ def run(ck, replay=None):
         sel = thists if ck.tier != "quick" else [h for h in thists if len(h) <= 4]
         tspecs.append((sel, f"image-{nd}d", make, use, lambda x, y: all(p_.shape == q_.shape and np.allclose(p_, q_, rtol=1e-12, atol=1e-12) for p_, q_ in zip(x, y)), f"twin:{nd}d"))
     ck.cov["twin_object_histories"] = twoobj.run(ck, "C02", tspecs)
+    # one dated image (single or series) used again after appends it rejected (spec/FailedCalls.tla): a rejected append
+    # (earlier date, other extent / placement / kind) leaves data, dates and times as they were - a later valid append,
+    # time_slice and time_interval see what a fresh object shows
+    from lib import failedcalls
+    import datetime as _dt
+    fhists = failedcalls.histories(ck)
+    fspecs = []
+    t0 = _dt.datetime(2020, 1, 1)
+    for nd in (2, 3):
+        for series0 in (False, True):
+            shp = (4, 5) if nd == 2 else (3, 4, 2)
+            kw = dict(space_dim=nd, dimensions=[0.5 * (m + 1) * shp[m] for m in range(nd)], origin=[1.0 * (m + 1) for m in range(nd)], scalar=True)
+
+            def single(day, val, shp_=shp, kw_=kw, **over):
+                k2 = dict(kw_, **over)
+                return darsia.Image(np.full(shp_ if "shape" not in over else over.pop("shape"), float(val)) + np.arange(float(np.prod(shp_))).reshape(shp_),
+                                    date=t0 + _dt.timedelta(days=day), **{k: v for k, v in k2.items() if k != "shape"})
+
+            def fmake(series0=series0, shp=shp, kw=kw, single=single):
+                if not series0:
+                    return single(10, 100.0)
+                arr = np.arange(float(np.prod(shp) * 2)).reshape(shp + (2,))
+                return darsia.Image(arr, series=True, date=[t0 + _dt.timedelta(days=8), t0 + _dt.timedelta(days=10)], **kw)
+
+            def fuse(img, single=single):
+                c = img.copy()
+                c.append(single(20, 500.0))
+                out = [np.asarray(c.img, dtype=float), np.asarray([(d - t0).total_seconds() for d in c.date], dtype=float), np.asarray([c.time_num], dtype=float)]
+                for k in range(c.time_num):
+                    ts = c.time_slice(k)
+                    out += [np.asarray(ts.img, dtype=float), np.asarray([(ts.date - t0).total_seconds()], dtype=float)]
+                ti = c.time_interval(slice(c.time_num - 2, c.time_num))
+                out += [np.asarray(ti.img, dtype=float), np.asarray([(d - t0).total_seconds() for d in ti.date], dtype=float)]
+                return out
+
+            shp2 = tuple(n + 1 for n in shp)
+            bads = [lambda single=single: single(5, 900.0), lambda single=single: single(10, 901.0),
+                    lambda shp2=shp2, kw=kw: darsia.Image(np.full(shp2, 902.0), date=t0 + _dt.timedelta(days=15), **kw),
+                    lambda single=single, kw=kw: single(15, 903.0, dimensions=[2.0 * d for d in kw["dimensions"]]),
+                    lambda single=single, kw=kw: single(15, 904.0, origin=[7.0 + d for d in kw["origin"]]),
+                    lambda: None]
+            for bi, bad in enumerate(bads):
+                fspecs.append((fhists, f"append-{nd}d-{'series' if series0 else 'single'}-bad{bi}", fmake, fuse, lambda img, bad=bad: img.append(bad()),
+                               lambda x, y: len(x) == len(y) and all(p_.shape == q_.shape and np.allclose(p_, q_, rtol=1e-12, atol=1e-12) for p_, q_ in zip(x, y)),
+                               f"failed:append:{nd}:{int(series0)}:{bi}"))
+    ck.cov["failed_call_histories"] = failedcalls.run(ck, "C02", fspecs)
     cases = []
     if replay:
         for c in json.load(open(replay))["cases"]:
